@@ -90,6 +90,12 @@ pub fn run_one(seed: u64, profile: Profile, thorough: bool, mk: MkMonitors, stop
             }
             for io in &o.ix_outcomes {
                 fnv(&mut res.log_hash, &io.code.to_le_bytes());
+                if o.ok {
+                    let h = io.cpis.iter().filter(|c| c.program_id == crate::rt::hook_program_id()).count();
+                    if h > 0 {
+                        res.cov.probe_n("transfer_hook_invocations_in_landed_tx", h as u64);
+                    }
+                }
                 if io.injected_fired {
                     res.injected_cpi_fired += 1;
                 }
